@@ -42,6 +42,9 @@ def run_detect(df, thr, m):
     from bycycle.burst import detect_bursts_cycles
     if (len(df) + int(m)) % 2:
         df['is_burst'] = True          # the table was labelled before (e.g. by an earlier, looser thresholding): must not matter
+    if (len(df) + 2 * int(m)) % 4 == 1:
+        df['Label'] = 'chan-1'                   # an unrelated user column
+        df = df[list(df.columns[::-1])]          # columns in another order
     ik = (len(df) * 2 + int(m)) % 3
     if ik == 1:
         df.index = range(4, 4 + len(df))                      # a slice of a longer table
